@@ -18,9 +18,20 @@ struct Owner { name: String, pet: Dog, pets: Vec<Dog> }
 fn owner(n: &str) -> Owner { Owner { name: n.into(), pet: dog(), pets: vec![dog(), Dog { name: "fido".into(), bark: 1 }] } }
 fn dog() -> Dog { Dog { name: "rex".into(), bark: 3 } }
 fn cat() -> Cat { Cat { name: "tom".into(), meow: 9 } }
+struct YieldOnce(bool);
+impl std::future::Future for YieldOnce { type Output = (); fn poll(mut self: std::pin::Pin<&mut Self>, cx: &mut std::task::Context<'_>) -> std::task::Poll<()> {
+    if self.0 { std::task::Poll::Ready(()) } else { self.0 = true; cx.waker().wake_by_ref(); std::task::Poll::Pending } } }
+fn block_on<F: std::future::Future>(f: F) -> F::Output {
+    let w = futures_util::task::noop_waker(); let mut cx = std::task::Context::from_waker(&w);
+    let mut f = Box::pin(f);
+    loop { if let std::task::Poll::Ready(v) = f.as_mut().poll(&mut cx) { return v; } }
+}
 struct Query;
 #[Object]
 impl Query {
+    /// a resolver that really suspends (twice) before completing: response keys must still come out in DOCUMENT order
+    async fn slow(&self) -> i32 { YieldOnce(false).await; YieldOnce(false).await; 1 }
+    async fn slow_dog(&self) -> Dog { YieldOnce(false).await; dog() }
     async fn dog(&self) -> Dog { dog() }
     async fn pet(&self) -> Pet { Pet::Dog(dog()) }
     async fn pet2(&self) -> Pet { Pet::Cat(cat()) }
@@ -37,7 +48,8 @@ impl Query {
 pub fn exec(args: &Value) -> Outcome {
     let mut req = Request::new(args["query"].as_str().unwrap());
     if let Some(v) = args.get("variables") { if !v.is_null() { req = req.variables(Variables::from_json(v.clone())); } }
-    let resp = Schema::build(Query, EmptyMutation, EmptySubscription).register_output_type::<Animal>().finish().execute(req).now_or_never().unwrap();
+    let schema = Schema::build(Query, EmptyMutation, EmptySubscription).register_output_type::<Animal>().finish();
+    let resp = block_on(schema.execute(req));
     // key ORDER matters: compare the serialized text
     let data = serde_json::to_string(&resp.data).unwrap();
     let exp = args["data"].as_str().unwrap().to_string();
@@ -67,6 +79,11 @@ pub fn inputs(_seed: u64, open: &[String]) -> impl Iterator<Item = Value> {
         json!({"query": "{ owners { name pets { name } } owners { pets { bark } name } }", "data": "{\"owners\":[{\"name\":\"ann\",\"pets\":[{\"name\":\"rex\",\"bark\":3},{\"name\":\"fido\",\"bark\":1}]},{\"name\":\"bob\",\"pets\":[{\"name\":\"rex\",\"bark\":3},{\"name\":\"fido\",\"bark\":1}]}]}"}),
         json!({"query": "{ owner { pet { name } } ... on Query { owner { pet { bark } name } } }", "data": "{\"owner\":{\"pet\":{\"name\":\"rex\",\"bark\":3},\"name\":\"ann\"}}"}),
         json!({"query": "{ owner { pets { name } } ...F } fragment F on Query { owner { pets { bark } } }", "data": "{\"owner\":{\"pets\":[{\"name\":\"rex\",\"bark\":3},{\"name\":\"fido\",\"bark\":1}]}}"}),
+        // key order is the document's, not the order in which resolvers complete
+        json!({"query": "{ slow num }", "data": "{\"slow\":1,\"num\":7}"}),
+        json!({"query": "{ a: slow b: num c: slow d: num }", "data": "{\"a\":1,\"b\":7,\"c\":1,\"d\":7}"}),
+        json!({"query": "{ slowDog { name } dog { bark } num }", "data": "{\"slowDog\":{\"name\":\"rex\"},\"dog\":{\"bark\":3},\"num\":7}"}),
+        json!({"query": "{ ...F num } fragment F on Query { slow }", "data": "{\"slow\":1,\"num\":7}"}),
         // both directives on one selection: BOTH must let it through
         json!({"query": "{ num @skip(if: false) @include(if: false) opt }", "data": "{\"opt\":null}"}),
         json!({"query": "{ num @include(if: true) @skip(if: true) opt }", "data": "{\"opt\":null}"}),
